@@ -46,6 +46,7 @@ type spRoute struct {
 	Loop bool   `json:"loop"`
 	Via  uint32 `json:"via"`
 	Pp   int    `json:"pp"`
+	Cm   int    `json:"cm"`
 }
 
 type spStep struct {
@@ -134,7 +135,9 @@ func (w *spWorld) attrs(r spRoute, nh string) []bgp.PathAttributeInterface {
 	if r.Lp >= 0 {
 		a = append(a, bgp.NewPathAttributeLocalPref(uint32(r.Lp)))
 	}
-	a = append(a, bgp.NewPathAttributeCommunities([]uint32{uint32(65000<<16 | r.V)}))
+	// three communities: the variant tag and two fillers (a list the decoder grows to capacity 4 has room
+	// for one more: in-place appends by a policy action would show)
+	a = append(a, bgp.NewPathAttributeCommunities([]uint32{uint32(65000<<16 | r.V), 65008<<16 | 1, 65008<<16 | 2}))
 	return a
 }
 
@@ -155,7 +158,7 @@ func spPrefixName(s string) string {
 
 // project turns concrete attributes into the abstract record of Speaker.tla's Exp().
 func (w *spWorld) project(attrs []bgp.PathAttributeInterface) map[string]any {
-	o := map[string]any{"v": 0, "src": "unknown", "aspath": []uint32{}, "nh": "none", "med": int64(-1), "lp": int64(-1), "origid": "none", "clist": 0}
+	o := map[string]any{"v": 0, "src": "unknown", "aspath": []uint32{}, "nh": "none", "med": int64(-1), "lp": int64(-1), "origid": "none", "clist": 0, "cm": 0}
 	for _, a := range attrs {
 		switch t := a.(type) {
 		case *bgp.PathAttributeAsPath:
@@ -190,6 +193,9 @@ func (w *spWorld) project(attrs []bgp.PathAttributeInterface) map[string]any {
 					v := int(c & 0xffff)
 					o["v"] = v
 					o["src"] = w.srcOfTag(v)
+				}
+				if c>>16 == 65009 { // tags added by the policies cm1x1 / cm2x1
+					o["cm"] = o["cm"].(int) | int(c&3)
 				}
 			}
 		}
@@ -532,6 +538,8 @@ func (w *spWorld) definePolicies() {
 		"rejx1": {RouteAction: api.RouteAction_ROUTE_ACTION_REJECT},
 		"medx1": {RouteAction: api.RouteAction_ROUTE_ACTION_ACCEPT, Med: &api.MedAction{Type: api.MedAction_TYPE_REPLACE, Value: 77}},
 		"ppx1":  {RouteAction: api.RouteAction_ROUTE_ACTION_ACCEPT, AsPrepend: &api.AsPrependAction{Asn: 65099, Repeat: 2}},
+		"cm1x1": {RouteAction: api.RouteAction_ROUTE_ACTION_ACCEPT, Community: &api.CommunityAction{Type: api.CommunityAction_TYPE_ADD, Communities: []string{"65009:1"}}},
+		"cm2x1": {RouteAction: api.RouteAction_ROUTE_ACTION_ACCEPT, Community: &api.CommunityAction{Type: api.CommunityAction_TYPE_ADD, Communities: []string{"65009:2"}}},
 	}
 	for name, act := range pols {
 		vpMust(w.ss.s.AddPolicy(ctx, &api.AddPolicyRequest{Policy: &api.Policy{
